@@ -7,9 +7,9 @@ class Driver(ChanDriver):
     PID = 'C07'
     PROP = '(fun i o => c07_ok i o && c07_isolation_ok i o)'
     PROFILES = [('errors', 150, 2000), ('rpc', 40, 400), ('confirm', 40, 400)]
-    CONC = [('chclose', concdrv.gen_chclose, 'conc_chclose_ok', 40, 600),
-            ('connclose', concdrv.gen_connclose_code, 'conc_connclose_code_ok', 40, 600),
-            ('returns', concdrv.gen_returns, 'conc_return_once_ok', 40, 600)]
+    CONC = [('chclose', concdrv.gen_chclose, 'conc_chclose_ok', 100, 1000),
+            ('connclose', concdrv.gen_connclose_code, 'conc_connclose_code_ok', 100, 1000),
+            ('returns', concdrv.gen_returns, 'conc_return_once_ok', 100, 1000)]
     RULE = ("scenarios from the profiles ['errors', 'rpc', 'confirm'] of harness/changen.py: sequences of "
             'application operations on 1-3 channels, each with a script of '
             'inbound frame batches (replies, deliveries, returns, cancels, '
